@@ -1,4 +1,4 @@
-(* C01 oracle and non-triviality on wiring cases. Correspondence: Corr/Wiring.v [wcheck];
+(* C09 oracle and non-triviality on wiring cases. Correspondence: Corr/Wiring.v [wcheck];
    oracles: Corr/WiringOracles.v (static scenario data + the implementation's observation only). *)
 From Coq Require Import List Arith Bool.
 From IocVerif Require Import Model.App Corr.Wiring Corr.WiringOracles.
@@ -6,10 +6,10 @@ Import ListNotations.
 
 Definition check_case : wcase -> bool := wcheck.
 
-(* after a successful start every version held anywhere equals the by-name lookup of its component *)
-Definition oracle_case (c : wcase) : bool := oracle_one_version c.
+(* a fault or an unsatisfied required point fails the start with an error, no runner runs; optional points never fail *)
+Definition oracle_case (c : wcase) : bool := oracle_clean_outcome c && oracle_faults c && oracle_points c.
 
-Definition nontrivial (c : wcase) : bool := ok_start c && shared c 2.
+Definition nontrivial (c : wcase) : bool := negb (no_faults c) || negb (all_satisfiable c).
 
 Definition mismatches (cs : list wcase) : list nat := wmismatches cs.
 Definition violations (cs : list wcase) : list nat :=
